@@ -884,6 +884,7 @@ mod b12 {
 	//!       mirror <req|inv|sinv> <earlier message> <payer|-> <own> <expOwn|-> <sig> -> <message bytes>   (write plans of Unsigned*::new + sign)
 	//!       resign <req|inv> <unsigned bytes> <signature record>  -> <ok|not-ascending|contents-differ|malformed> <signed bytes>
 	//!                                                      (Unsigned*::try_from -> sign: the split range of bytes / experimental_bytes)
+	//!       uwrite <req|inv> <unsigned bytes>                  -> <bytes written by Unsigned*::write after try_from>
 	//! plus implementation-only oracles (round trips, single-bit mutations of signed streams, metadata
 	//! negatives, no-panic fuzzing of the public parsers), counted in the stats notes.
 	use ldk_verif_harness::common::*;
@@ -1180,21 +1181,13 @@ mod b12 {
 			Err(p) => { rec.oracle_fail(format!("panic in Unsigned*::try_from / sign ({} {}): {} unsigned={}", class, kind, p, hex(unsigned))); return; },
 		};
 		st.b12_built(if kind == "req" { "resigned_invreq" } else { "resigned_invoice" });
-		// `Unsigned*::write` of the re-parsed object must give back the bytes it was parsed from.  On the current source it
-		// writes `self.bytes` only, i.e. WITHOUT `experimental_bytes` (candidate finding KF-C18-2, reported once per kind and
-		// run); anything else that goes missing (e.g. a non-experimental record cut off by a wrong split) is a plain failure.
+		// `Unsigned*::write` of the re-parsed object must give back the bytes it was parsed from (hard oracle since the fix
+		// f3513c1 of KF-C18-2: write = bytes ‖ experimental_bytes).  op `uwrite <req|inv> <bytes>` -> the written bytes: the
+		// model splits with the translated range and writes the parts the translated write plan names.
 		if reser != unsigned {
-			let non_exp = b12_select(unsigned, |t| t < 1_000_000_000);
-			if reser == non_exp {
-				let k = format!("kf2:{}", kind);
-				if !st.probes.contains_key(&k) {
-					st.probes.insert(k, "seen".into());
-					rec.oracle_fail(format!("KF-C18-2 unsigned BOLT-12 message write omits experimental_bytes (Unsigned{}::write): try_from(b).write() != b for an unsigned message carrying experimental (>= 10^9) records, they are hashed and signed but not serialised; b={} written={}", if kind == "req" { "InvoiceRequest" } else { "Bolt12Invoice" }, hex(unsigned), hex(&reser)));
-				}
-			} else {
-				rec.oracle_fail(format!("re-parsed unsigned {} serialises to other bytes, a NON-experimental record is lost or moved ({}): parsed_from={} written={}", kind, class, hex(unsigned), hex(&reser)));
-			}
+			rec.oracle_fail(format!("Unsigned{}::try_from(b).write() != b, the unsigned message does not serialise to the records that were hashed ({}): b={} written={}", if kind == "req" { "InvoiceRequest" } else { "Bolt12Invoice" }, class, hex(unsigned), hex(&reser)));
 		}
+		rec.case(&format!("uwrite {} {}", kind, hex(unsigned)), &hex(&reser), &format!("uwrite:{}", class.trim_start_matches("resign:")), true);
 		let verdict = b12_resign_verdict(unsigned, &out);
 		if verdict != "ok" { rec.oracle_fail(format!("sign(try_from(unsigned {})) is not a strictly ascending TLV stream carrying the unsigned records ({}; {}): unsigned={} signed={}", kind, verdict, class, hex(unsigned), hex(&out))); }
 		let parsed = if kind == "req" { b12_parse_invreq(out.clone()) } else { b12_parse_invoice(out.clone()) };
